@@ -10,6 +10,7 @@ package main
 
 import (
 	"errors"
+	"reflect"
 	"sort"
 	"sync/atomic"
 	"time"
@@ -1711,6 +1712,17 @@ func (t *Topic) thisUserSub(sess *Session, pkt *ClientComMessage, asUid types.Ui
 			if err := store.Subs.Create(sub); err != nil {
 				sess.queueOut(ErrUnknownReply(pkt, now))
 				return nil, err
+			}
+
+			// Re-creating a deleted subscription keeps its stored 'private' value: make the stored
+			// and the cached values agree.
+			if restored, err := store.Subs.Get(tname, asUid, false); err == nil && restored != nil &&
+				restored.Private != nil && !reflect.DeepEqual(restored.Private, userData.private) {
+				if userData.private == nil {
+					userData.private = restored.Private
+				} else if err := store.Subs.Update(tname, asUid, map[string]any{"Private": userData.private}); err != nil {
+					userData.private = restored.Private
+				}
 			}
 
 		} else if asChan && userData.modeWant != oldWant {
